@@ -424,4 +424,21 @@ theorem fallbackAppendix_rawFile (f : RawFile) (hh : f.HeadOk) (ha : f.AppendixO
     rw [hc, List.drop_left' rfl, hl, List.take_left' rfl]
   rw [hsl]; rfl
 
+/-- the header the VTK writers (and the harness) produce: `<AppendedData encoding="NAME">\n_` -/
+def stdRawFile (pre enc appendix : List Nat) : RawFile :=
+  ⟨pre, [32], [61], enc, [], [10], appendix, strBytes "\n</VTKFile>\n"⟩
+
+theorem stdRawFile_headOk (pre enc appendix : List Nat)
+    (hO : occ openTag pre = false) (hC : occ closeTag pre = false) (hlen : 100 ≤ pre.length)
+    (he : 34 ∉ enc ∧ 60 ∉ enc ∧ 62 ∉ enc ∧ enc.length ≤ 64) : (stdRawFile pre enc appendix).HeadOk := by
+  obtain ⟨h34, h60, h62, hl⟩ := he
+  refine ⟨hO, hC, ?_, ?_, (show occ encodingKw (openTag ++ [32]) = false by decide +kernel),
+    (show 34 ∉ [61] by decide), h34, (show 60 ∉ [10] by decide), (show 95 ∉ [10] by decide),
+    (show occ openTag (strBytes "\n</VTKFile>\n") = false by decide +kernel), ?_, ?_⟩
+  · simp only [stdRawFile, RawFile.attrs, encodingKw_eq]; simp; exact h60
+  · simp only [stdRawFile, RawFile.attrs, encodingKw_eq]; simp; exact h62
+  · simp only [stdRawFile, RawFile.mid, RawFile.attrs, encodingKw_eq, openTag_eq]; simp; omega
+  · show 100 ≤ (pre ++ (stdRawFile pre enc appendix).mid).length
+    simp only [List.length_append]; omega
+
 end Fc
